@@ -671,6 +671,266 @@ let handle_ns id rest =
   let want = if reset then s2.n_lambda else lam1 in
   if not (qeq_bool want lam2) then report "nesterov-reset" id (Printf.sprintf "reset=%b model=%h impl=%h" reset (float_of_q want) (float_of_q lam2))
 
+(* ---- stage WHOLE: the composed model (C03_Whole_Defs.v) replays a complete mirrored RQB / FPBA run from the recorded oracle
+   answers (QP multipliers of every solve, surviving rows of every append, every evaluation, the square-root witnesses).
+   (a) ONE call of the extracted replay_rqb / replay_fpba must end with the same exit / solver status, number of outer iterations,
+       evaluation count, state value, bundle size, the same centre, returned point and sequence of serious-step centres (rationals
+       compared by Qeq = cross-multiplication), no rejected operation, capacity not reached.
+   (b) the same run driven pass by pass with the extracted pieces (w_ask, cs_pass, w_serious, w_null, w_prox*, w_momentum, *_done): at every
+       pass the model's decision is compared with the library's recorded one (cs_pass on the recorded operands).  A decision (econv,
+       sconv, the m1..m4 tests, delete_inactive's alpha_i < eps0) is AMBIGUOUS only when its two sides differ by less than 1e-9 of the
+       summed magnitudes of its terms; at an ambiguous decision the library's branch is followed (counted), a differing non-ambiguous
+       decision is a MISMATCH.  (b) runs on every line: when (a) agrees it must agree too with no decision followed (self-check). *)
+let whole_recorded = ref 0
+let whole_runs = ref 0
+let whole_followed = ref 0
+let whole_forced = ref 0
+let whole_miu_followed = ref 0
+let whole_passes = ref 0
+let whole_conv = ref 0
+let whole_budget = ref 0
+let whole_appends = ref 0
+let whole_aggr = ref 0
+let whole_cap = ref 100000
+let parse_ev s = match String.split_on_char ':' s with
+  | [y; g; f] -> { e_y = qs_of y; e_g = qs_of g; e_f = qf f }
+  | _ -> failwith "bad evaluation"
+let vec_eq a b = List.length a = List.length b && List.for_all2 (fun x y -> qeq_bool x y) a b
+let near9 lhs rhs mag = qle (qabs (lhs -/ rhs)) (rel9 */ mag +/ tiny)
+exception Div of string
+let fq x = Printf.sprintf "%h" (float_of_q x)
+let absdot a b = List.fold_left2 (fun acc x y -> acc +/ qabs (x */ y)) qz a b
+
+type wend = { x_exit : string; x_iters : int; x_calls : int; x_sfx : q; x_w : wst }
+
+let handle_w id rest =
+  match String.split_on_char '|' rest with
+  | [hd; x0; evs; qps; kps; sqs; fin; cen; sx; log; its] ->
+      incr whole_recorded;
+      if !whole_recorded <= !whole_cap then begin
+      let h = kvs hd and f = kvs fin in
+      let g k = get h k in
+      let n = int_of_string (g "n") in
+      let p = { p_m1 = qf (g "m1"); p_m2 = qf (g "m2"); p_m3 = qf (g "m3"); p_m4 = qf (g "m4"); p_interpol = qf (g "ip");
+                p_extrapol = qf (g "ep"); p_eps0 = qf (g "eps0"); p_cost = zi (int_of_string (g "cost")) } in
+      let evl = List.map parse_ev (split ';' evs) in
+      (* e, delta and fx - fy are differences of function values and linearisations: their terms have the magnitude of the largest |f| evaluated in
+         the run (magnitude history, as in the row oracle of the harness); the binary64 rounding of those terms enters every decision on them *)
+      let scale = List.fold_left (fun acc (e : evald) -> qmax acc (qabs e.e_f)) qz evl in
+      let near9 lhs rhs mag = qle (qabs (lhs -/ rhs)) (rel9 */ mag +/ rel12q */ scale +/ tiny) in
+      let solve2_amb (b : bundle) (mt : q) : (bool * q * q) =
+        match b.bcuts with
+        | [c0; c1] ->
+            let q00 = dot c0.cs c0.cs and q11 = dot c1.cs c1.cs and q01 = dot c0.cs c1.cs in
+            let qq = q00 +/ q11 -/ q01 -/ q01 in
+            let pp = q01 -/ q11 +/ mt */ c0.ce -/ mt */ c1.ce in
+            let magq = q00 +/ q11 +/ qabs q01 +/ qabs q01 in
+            let magp = qabs q01 +/ q11 +/ qabs (mt */ c0.ce) +/ qabs (mt */ c1.ce) +/ rel6 */ rel6 */ (q_of_int 1000000000) */ mt */ scale in
+            let half = { qnum = B.unit_big_int; qden = B.big_int_of_int 2 } in
+            (near9 qq qz magq || near9 pp qz magp || near9 (pp +/ qq) qz (magp +/ magq) || near9 (half */ qq +/ pp) qz (magp +/ magq), qq, pp)
+        | _ -> (false, qz, qz) in
+      let qpl = List.map qs_of (split ';' qps) in
+      let kp_of s = let s = String.trim s in
+        if s = "-" || s = "e" then [] else List.map (fun i -> nat_of_int (int_of_string i)) (String.split_on_char ',' s) in
+      let kpl = List.map kp_of (split ';' kps) in
+      let sql = List.map qf (split ',' sqs) in
+      let solver = g "solver" in
+      let is_rqb = solver = "rqb" in
+      let eps0 = qf (g "eps0") and tol = qf (g "tol") and mdn = qf (g "mdn") and miu0 = qf (g "miu0") in
+      let args_n = nat_of_int n and mx = zi (int_of_string (g "max")) and c0i = int_of_string (g "calls0") and mi = int_of_string (g "maxev") in
+      let x0q = qs_of x0 in
+      let fexit = get f "exit" and sst = int_of_string (get f "sstatus") in
+      let want_exit = Printf.sprintf "%s/%d" fexit (if fexit = "done" then sst else 0) in
+      let logl = List.map qs_of (split ';' log) in
+      let compare_end (e : wend) =
+        let w = e.x_w in
+        let bad = ref [] in
+        let chk what ok detail = if not ok then bad := (what, detail) :: !bad in
+        chk "exit" (e.x_exit = want_exit) (Printf.sprintf "model %s implementation %s" e.x_exit want_exit);
+        chk "iterations" (e.x_iters = int_of_string (get f "iters")) (Printf.sprintf "model %d implementation %s" e.x_iters (get f "iters"));
+        chk "calls" (e.x_calls = int_of_string (get f "calls")) (Printf.sprintf "model %d implementation %s" e.x_calls (get f "calls"));
+        chk "state-value" (qeq_bool e.x_sfx (qf (get f "sfx"))) (Printf.sprintf "model %s implementation %s" (fq e.x_sfx) (get f "sfx"));
+        chk "bundle-size" (List.length w.w_b.bcuts = int_of_string (get f "size")) (Printf.sprintf "model %d implementation %s" (List.length w.w_b.bcuts) (get f "size"));
+        chk "centre" (vec_eq w.w_b.bx (qs_of cen)) (Printf.sprintf "model %s implementation %s" (String.concat "," (List.map fq w.w_b.bx)) (String.trim cen));
+        chk "returned-point" (vec_eq w.w_sx (qs_of sx)) (Printf.sprintf "model %s implementation %s" (String.concat "," (List.map fq w.w_sx)) (String.trim sx));
+        chk "serious-centres" (List.length logl = List.length w.w_log && List.for_all2 vec_eq w.w_log logl)
+          (Printf.sprintf "model %d serious steps, implementation %d (or a centre differs)" (List.length w.w_log) (List.length logl));
+        chk "operation-rejected" (not w.w_rej) "the model rejected a bundle operation (append on multipliers not recomputed / QP answer of the wrong length)";
+        chk "capacity-reached" (not w.w_over) "size() >= capacity() after an append";
+        List.rev !bad in
+      (* (a) one call of the composed model *)
+      let r =
+        if is_rqb then replay_rqb eps0 tol mdn qpl kpl evl args_n mx x0q miu0 (zi c0i) p (zi mi)
+        else replay_fpba eps0 tol mdn (solver = "fpba2") qpl kpl evl sql args_n mx x0q miu0 (zi c0i) p (zi mi) in
+      let mexit = match r.o_exit with EDone z -> Printf.sprintf "done/%d" (iz z) | EBudget -> "budget/0" | EFuel -> "fuel" in
+      let bad1 = compare_end { x_exit = mexit; x_iters = int_of_nat r.o_iters; x_calls = iz r.o_final.s_calls; x_sfx = r.o_final.s_fx; x_w = r.o_final.s_or } in
+      (* (b) pass by pass, following the library at ambiguous decisions *)
+      let nth_or l k d = match List.nth_opt l (int_of_nat k) with Some x -> x | None -> d in
+      let qpf k _ _ = nth_or qpl k [] and kpf k _ = nth_or kpl k [] and evf k _ = nth_or evl k { e_y = []; e_g = []; e_f = qz }
+      and sqf k = nth_or sql k qz in
+      let parse_it s = match String.split_on_char '@' s with
+        | [st; miu; ps] -> (int_of_string (String.trim st), qf miu, if String.trim ps = "-" then [] else List.map parse_pass (String.split_on_char '/' (String.trim ps)))
+        | _ -> failwith "bad iteration record" in
+      let itl = List.map parse_it (split ';' its) in
+      let cost = iz p.p_cost in
+      let forced = ref 0 and miuf = ref 0 in
+      let kind t o = match o with
+        | PRet (s, _, _) -> Printf.sprintf "ret%d" (iz s)
+        | PCont (_, tl', _) -> if qeq_bool tl' t then "cont-tL" else "cont-tR" in
+      let follow () : wend =
+        let rec outer w calls sfx miu itl iters =
+          if calls >= mi then { x_exit = "budget/0"; x_iters = iters; x_calls = calls; x_sfx = sfx; x_w = w }
+          else begin
+            let (rst, rmiu, rpasses) = match itl with x :: _ -> x | [] -> raise (Div (Printf.sprintf "outer iteration %d: the implementation stopped before" iters)) in
+            let last_mt = ref q1 in
+            let rec search w calls t tl tr rp npass =
+              if calls >= mi then begin
+                if rp <> [] then raise (Div (Printf.sprintf "outer iteration %d: the budget ends the model's search after %d passes, the implementation made more" iters npass));
+                (w, calls, t, None)
+              end else begin
+                let (w', a) = w_ask eps0 tol qpf evf w (qdiv miu t) in
+                last_mt := qdiv miu t;
+                incr whole_passes;
+                let ra = match rp with r :: _ -> r.ans | [] -> raise (Div (Printf.sprintf "outer iteration %d: the model makes pass %d, the implementation returned after %d" iters (npass + 1) npass)) in
+                let out_m = cs_pass p t tl tr a in
+                let out_r = cs_pass p t tl tr ra in
+                let out =
+                  if kind t out_m = kind t out_r then out_m
+                  else begin
+                    (* which tests differ, and is each of them within 1e-9 of the summed magnitudes of its terms? *)
+                    let b = w'.w_b in
+                    let sv = smeared_s b.bn b.bcuts b.balpha in
+                    let d = vsub w'.w_pt.e_y b.bx in
+                    let dl = a.a_delta in
+                    (* one or two rows: the multipliers are COMPUTED (closed form), in binary64 by the library and exactly by the model; when they differ by
+                       at most 1e-6 (an ill-conditioned quotient -p/q: p = .. + miu/t (e0 - e1) with miu/t up to 1e10 near the minimiser) a stopping test that
+                       gives the library's verdict on the model's rows with the LIBRARY's multipliers is ambiguous *)
+                    let ral = match List.nth_opt qpl (int_of_nat w'.w_nqp - 1) with Some l -> l | None -> [] in
+                    let al_close = List.length ral = List.length b.balpha && List.length ral <= 2 &&
+                                   (List.for_all2 (fun m l -> close m l rel6) b.balpha ral ||
+                                    (let (amb2, _, _) = solve2_amb b (qdiv miu t) in amb2)) in
+                    let e_lib = if al_close then qle_bool (smeared_e b.bcuts ral) tol = ra.a_econv else false in
+                    let s_lib = if al_close then (let sl = smeared_s b.bn b.bcuts ral in qle_bool (norm2 sl) (tol */ tol)) = ra.a_sconv else false in
+                    let tests = [
+                      ("econverged", a.a_econv, ra.a_econv, near9 a.a_e tol (qabs a.a_e +/ tol) || e_lib, Printf.sprintf "smeared_e %s vs tol %s" (fq a.a_e) (fq tol));
+                      ("sconverged", a.a_sconv, ra.a_sconv, qle (qabs (norm2 sv -/ tol */ tol)) (rel9 */ (norm2 sv +/ tol */ tol) +/ tiny) || s_lib, Printf.sprintf "|s|^2 %s vs tol^2 %s" (fq (norm2 sv)) (fq (tol */ tol)));
+                      ("m1", cs_m1_test p a, cs_m1_test p ra, near9 (a.a_fx -/ a.a_fy) (p.p_m1 */ dl) (qabs a.a_fx +/ qabs a.a_fy +/ qabs (p.p_m1 */ dl)),
+                         Printf.sprintf "fx - fy %s vs m1 delta %s" (fq (a.a_fx -/ a.a_fy)) (fq (p.p_m1 */ dl)));
+                      ("m2", cs_m2_test p a, cs_m2_test p ra, near9 a.a_gdot (qopp p.p_m2 */ dl) (absdot w'.w_pt.e_g d +/ qabs (p.p_m2 */ dl)),
+                         Printf.sprintf "gy.(y-x) %s vs -m2 delta %s" (fq a.a_gdot) (fq (qopp p.p_m2 */ dl)));
+                      ("m3", cs_m3_test p a, cs_m3_test p ra, near9 a.a_e (p.p_m3 */ dl) (qabs a.a_e +/ qabs (p.p_m3 */ dl)),
+                         Printf.sprintf "e %s vs m3 delta %s" (fq a.a_e) (fq (p.p_m3 */ dl)));
+                      ("m4", cs_m4_test p a, cs_m4_test p ra, near9 a.a_sdot (qopp p.p_m4 */ dl) (absdot sv d +/ qabs (p.p_m4 */ dl)),
+                         Printf.sprintf "s.(y-x) %s vs -m4 delta %s" (fq a.a_sdot) (fq (qopp p.p_m4 */ dl))) ] in
+                    (* the model's answer with the AMBIGUOUS differing tests set to the library's verdict *)
+                    let pa = List.fold_left (fun (acc : cs_ans) (nm, m, l, nr, _) ->
+                      if m = l || not nr then acc
+                      else match nm with
+                        | "econverged" -> { acc with a_econv = l }
+                        | "sconverged" -> { acc with a_sconv = l }
+                        | "m1" -> { acc with a_fy = (if l then acc.a_fx -/ p.p_m1 */ dl else acc.a_fx -/ p.p_m1 */ dl +/ q1) }
+                        | "m2" -> { acc with a_gdot = (if l then qopp p.p_m2 */ dl else qopp p.p_m2 */ dl -/ q1) }
+                        | "m3" -> { acc with a_e = (if l then p.p_m3 */ dl else p.p_m3 */ dl +/ q1) }
+                        | _ -> { acc with a_sdot = (if l then qopp p.p_m4 */ dl else qopp p.p_m4 */ dl -/ q1) }) a tests in
+                    let out_p = cs_pass p t tl tr pa in
+                    if kind t out_p = kind t out_r then begin
+                      forced := !forced + List.length (List.filter (fun (_, m, l, nr, _) -> m <> l && nr) tests); out_p
+                    end else begin
+                      let diff = List.filter (fun (_, m, l, nr, _) -> m <> l && not nr) tests in
+                      let desc = match diff with
+                        | (nm, m, l, _, dsc) :: _ -> Printf.sprintf "test %s: model %b, library %b (%s: not within 1e-9 of the summed magnitudes)" nm m l dsc
+                        | [] -> "no single test differs" in
+                      raise (Div (Printf.sprintf "outer iteration %d pass %d at t=%s: model %s, library %s; %s" iters (npass + 1) (fq t) (kind t out_m) (kind t out_r) desc))
+                    end
+                  end in
+                match out with
+                | PRet (st, _, _) ->
+                    if List.length rp <> 1 then raise (Div (Printf.sprintf "outer iteration %d: the model returns after pass %d, the implementation made %d" iters (npass + 1) (npass + List.length rp)));
+                    (w', calls + cost, t, Some (iz st))
+                | PCont (t', tl', tr') -> search w' (calls + cost) t' tl' tr' (List.tl rp) (npass + 1)
+              end in
+            let (w1, calls1, t, asg) = search w calls q1 qz None rpasses 0 in
+            let st = match asg with Some z -> z | None -> iz src_c03_cs_st_init in
+            if st <> rst then raise (Div (Printf.sprintf "outer iteration %d: search returns status %d in the model, %d in the implementation" iters st rst));
+            let fy = w1.w_pt.e_f in
+            let stz = zi st in
+            (* delete_inactive before the append: alpha_i < eps0 on the model's multipliers vs the library's *)
+            let patch_alpha (w : wst) : wst =
+              let ra = match List.nth_opt qpl (int_of_nat w.w_nqp - 1) with Some l -> l | None -> [] in
+              let ma = w.w_b.balpha in
+              if List.length ra <> List.length ma then w
+              else if List.length ma = 2 && not (List.for_all2 (fun m l -> close m l rel9) ma ra) then begin
+                (* bundle_t::solve, two rows: the closed form branches on q == 0 (b not finite), 0 <= b <= 1 and 0.5 q + p > 0 *)
+                let (amb2, qq, pp) = solve2_amb w.w_b !last_mt in
+                if amb2 then begin
+                  incr forced; { w with w_b = { w.w_b with balpha = ra } }
+                end else raise (Div (Printf.sprintf "outer iteration %d: the two-row closed form of solve() gives %s in the model, %s in the library (q = %s, p = %s: no branch of it is within 1e-9)"
+                                       iters (String.concat "," (List.map fq ma)) (String.concat "," (List.map fq ra)) (fq qq) (fq pp)))
+              end
+              else begin
+                let differs = List.exists2 (fun m l -> qlt m eps0 <> qlt l eps0) ma ra in
+                if not differs then w
+                else if List.for_all2 (fun m l -> qlt m eps0 = qlt l eps0 || near9 m eps0 q1) ma ra then begin
+                  incr forced; { w with w_b = { w.w_b with balpha = ra } }
+                end else raise (Div (Printf.sprintf "outer iteration %d: delete_inactive removes different rows (model multipliers %s, library %s)" iters
+                                       (String.concat "," (List.map fq ma)) (String.concat "," (List.map fq ra))))
+              end in
+            let follow_miu m' =
+              if close m' rmiu (rel6 */ qabs rmiu) then m' else begin incr miuf; rmiu end in
+            let fin z = { x_exit = Printf.sprintf "done/%d" (iz z); x_iters = iters + 1; x_calls = calls1; x_sfx = sfx; x_w = w1 } in
+            if is_rqb then begin
+              match rqb_done stz true with
+              | Some z -> fin z
+              | None ->
+                  if src_c03_rqb_is_descent stz then begin
+                    let w1 = patch_alpha w1 in
+                    let miu' = follow_miu (w_prox2 mdn w1 t miu) in
+                    outer (w_serious eps0 kpf w1 fy) calls1 fy miu' (List.tl itl) (iters + 1)
+                  end else if src_c03_rqb_is_cutting stz then
+                    outer (w_serious eps0 kpf (patch_alpha w1) fy) calls1 fy miu (List.tl itl) (iters + 1)
+                  else if src_c03_rqb_is_null stz then outer (w_null eps0 kpf (patch_alpha w1)) calls1 sfx miu (List.tl itl) (iters + 1)
+                  else outer w1 calls1 sfx miu (List.tl itl) (iters + 1)
+            end else begin
+              match fpba_done stz true with
+              | Some z -> fin z
+              | None ->
+                  if src_c03_fpba_is_descent stz || src_c03_fpba_is_cutting stz then begin
+                    let w1 = patch_alpha w1 in
+                    let miu' = if src_c03_fpba_is_descent stz then follow_miu (w_prox1 mdn w1 t miu) else miu in
+                    let best1 = better sfx (Some fy) in
+                    let (w2, mv) = w_momentum eps0 (solver = "fpba2") kpf evf sqf w1 best1 in
+                    outer w2 (calls1 + cost) (better best1 mv) miu' (List.tl itl) (iters + 1)
+                  end else if src_c03_fpba_is_null stz then outer (w_null eps0 kpf (patch_alpha w1)) calls1 sfx miu (List.tl itl) (iters + 1)
+                  else outer w1 calls1 sfx miu (List.tl itl) (iters + 1)
+            end
+          end in
+        let w0 = w_init evf args_n mx x0q in
+        outer w0 c0i w0.w_pt.e_f miu0 itl 0 in
+      incr total;
+      let ctx = Printf.sprintf "solver=%s n=%d max=%s maxev=%s" solver n (g "max") (g "maxev") in
+      let account (e : wend) =
+        (match e.x_exit with "done/1" -> incr whole_conv | "budget/0" -> incr whole_budget | _ -> ());
+        whole_appends := !whole_appends + int_of_nat e.x_w.w_nkp;
+        whole_aggr := !whole_aggr + List.length (List.filter (fun k -> String.trim k <> "-") (split ';' kps)) in
+      (match (try Ok (follow ()) with Div m -> Error m) with
+       | Error m ->
+           report "whole-decision" id (Printf.sprintf "%s :: %s%s" ctx m
+             (match bad1 with (w, d) :: _ -> Printf.sprintf " :: one-call replay: %s (%s)" w d | [] -> " :: (the one-call replay agrees with the recorded end)"))
+       | Ok e ->
+           let bad2 = compare_end e in
+           (match bad1, bad2 with
+            | [], [] -> incr whole_runs; whole_forced := !whole_forced + !forced; whole_miu_followed := !whole_miu_followed + !miuf; account e
+            | [], _ -> report "whole-follow-selfcheck" id (Printf.sprintf "%s :: the one-call replay agrees, the pass-by-pass replay does not (%d decisions followed): %s" ctx !forced
+                                                            (String.concat "," (List.map fst bad2)))
+            | _ :: _, [] when !forced > 0 || !miuf > 0 ->
+                incr whole_followed; whole_forced := !whole_forced + !forced; whole_miu_followed := !whole_miu_followed + !miuf; account e
+            | (w, d) :: _, _ ->
+                let (w2, d2) = match bad2 with x :: _ -> x | [] -> (w, d) in
+                report ("whole-" ^ w2) id (Printf.sprintf "%s :: %s (all: %s; every decision of the curve search agrees with the library or was followed at an ambiguous one: %d followed)" ctx d2
+                                             (String.concat "," (List.map fst (if bad2 = [] then bad1 else bad2))) !forced)))
+      end
+  | _ -> failwith "bad W line"
+
 let () =
   let nlines = ref 0 in
   (try
@@ -704,6 +964,11 @@ let () =
           let i = String.index rest ' ' in
           handle_px0 (String.sub rest 0 i) (String.sub rest (i + 1) (String.length rest - i - 1))
         end
+        else if String.length line > 2 && String.sub line 0 2 = "W " then begin
+          let rest = String.sub line 2 (String.length line - 2) in
+          let i = String.index rest ' ' in
+          handle_w (String.sub rest 0 i) (String.sub rest (i + 1) (String.length rest - i - 1))
+        end
         else if String.length line > 2 && String.sub line 0 2 = "D " then begin
           match List.map int_of_string (List.filter (fun t -> t <> "") (String.split_on_char ' ' (String.sub line 2 (String.length line - 2)))) with
           | [iter_ok; conv; valid; ret; st] ->
@@ -733,7 +998,7 @@ let () =
       | ex -> report "driver-exception" (Printf.sprintf "line %d" !nlines) (Printexc.to_string ex ^ " :: " ^ (if String.length line > 160 then String.sub line 0 160 else line)))
     done
   with End_of_file -> ());
-  Printf.printf "MODEL-DONE checked=%d mismatches=%d ambiguous_skipped=%d amb_solve2=%d amb_conv=%d amb_ell1=%d multistep_states=%d simplex_worst=%h sigma_worst=%h ellipsoid_steps_checked=%d ellipsoid_membership_checked=%d amb_elln=%d ellipsoid_membership_worst=%.17g propfails=%d loop_calls=%d loop_passes=%d loop_iters=%d loop_amb=%d loop_stale=%d loop_budget_exits=%d px_checked=%d px_amb=%d ns_checked=%d loop_long_calls_pass_only=%d loop_status_hist=%s\n"
+  Printf.printf "MODEL-DONE checked=%d mismatches=%d ambiguous_skipped=%d amb_solve2=%d amb_conv=%d amb_ell1=%d multistep_states=%d simplex_worst=%h sigma_worst=%h ellipsoid_steps_checked=%d ellipsoid_membership_checked=%d amb_elln=%d ellipsoid_membership_worst=%.17g propfails=%d loop_calls=%d loop_passes=%d loop_iters=%d loop_amb=%d loop_stale=%d loop_budget_exits=%d px_checked=%d px_amb=%d ns_checked=%d loop_long_calls_pass_only=%d whole_recorded=%d whole_runs=%d whole_followed=%d whole_decisions_followed=%d whole_miu_followed=%d whole_passes=%d whole_converged=%d whole_budget_exits=%d whole_appends=%d whole_aggregations=%d loop_status_hist=%s\n"
     !total !mism !ambiguous !amb_solve !amb_conv !amb_ell !multi_checked !simplex_worst !sigma_worst !ell_steps !ell_member !amb_elln !ell_worst !propfails
-    !loop_calls !loop_passes !loop_iters !loop_amb !loop_stale !loop_budget_exits !px_checked !px_amb !ns_checked !loop_long
+    !loop_calls !loop_passes !loop_iters !loop_amb !loop_stale !loop_budget_exits !px_checked !px_amb !ns_checked !loop_long !whole_recorded !whole_runs !whole_followed !whole_forced !whole_miu_followed !whole_passes !whole_conv !whole_budget !whole_appends !whole_aggr
     (String.concat "," (List.sort compare (Hashtbl.fold (fun k v acc -> Printf.sprintf "%d:%d" k v :: acc) status_hist [])))
